@@ -64,7 +64,7 @@ CLAIMED = {
     ref='DESIGN.md §7 C13'),
  'C14': dict(level='other', engine='absint',
     technique='abstract interpretation of MIR with the mapping tables evaluated row by row (Lazy / vec! / constructor arguments), data rules on the embedded patterns.json, per-address-block abstract runs of the N/JA/HL decoders, mixed-radix normal forms of the index computations',
-    text='Totality: every panic obligation below tail(any u32) and aircraft_information(any &str, ..) is discharged, the data-dependent ones by rules evaluated on patterns.json of the current tree (0x-prefixed hex bounds, compilable category patterns, file deserialises into Patterns). Country: every address range in which a mapping can answer (stride/numeric rows from their evaluated constructor values; N, JA, HL by abstract runs over every address block) is assigned by patterns.json (first match, as the lookup does) to a block whose pattern admits the prefix. Aliasing: address ranges of the mappings are pairwise disjoint, prefixes do not shadow one another, same-prefix stride rows give disjoint letter triples; stride/numeric/HL are one-to-one inside a row by the shape of their computation (mixed-radix decomposition of a slope-1 offset, distinct alphabet letters, zero padding wide enough, disjoint HL ranges); every numeral position of the N and JA systems prints a single digit.',
+    text='Totality: every panic obligation below tail(any u32) and aircraft_information(any &str, ..) is discharged, the data-dependent ones by rules evaluated on patterns.json of the current tree (0x-prefixed hex bounds, compilable category patterns, file deserialises into Patterns). Country: every address range in which a mapping can answer (stride/numeric rows from their evaluated constructor values; N, JA, HL by abstract runs over every address block) is assigned by patterns.json (first match, as the lookup does) to a block whose pattern admits the prefix. Aliasing: address ranges of the mappings are pairwise disjoint, prefixes do not shadow one another, same-prefix stride rows give disjoint letter triples; stride/numeric/HL are one-to-one inside a row by the shape of their computation (mixed-radix decomposition of a slope-1 offset, distinct alphabet letters, zero padding wide enough, disjoint HL ranges); every numeral position of the N and JA systems prints a single digit, and every value of those decoders that is both divided by and reduced modulo a constant uses the same constant (positional decomposition).',
     note='Static rule check. Not decided: full injectivity inside the N-number and JA numeral systems (only the single-digit necessary condition). Trusted: MIR, abstract interpreter, library contracts (Lazy, vec!, chars/position/nth over constants, String), python re on the block patterns of patterns.json.',
     ref='DESIGN.md §7 C14'),
  'C15': dict(level='other', engine='absint',
